@@ -1,9 +1,92 @@
-import MaestroVerif.Model.Exec
+import MaestroVerif.Lemmas.ExecDemo
 
-/-! # C06 — Timed-out steps are restarted only as configured and within budget (theorems are being added) -/
+/-!
+# C06 — Timed-out steps are restarted only as configured and within budget
+-/
 namespace MaestroVerif.C06
 open MaestroVerif.Exec MaestroVerif.Gen
 
-theorem C06_init_not_canceled (cfg : Cfg) : (init cfg).isCanceled = false := rfl
+/-- **The restart count never exceeds a positive restart limit** (0 = unlimited). -/
+theorem C06_budget {cfg : Cfg} {g : G} (h : Reachable cfg g) (i : Nat) (hl : 0 < cfg.rlimit i) :
+    g.restarts i ≤ cfg.rlimit i :=
+  budget_reachable h i hl
+
+/-- **The restart script is only ever used for a step that declares a restart
+command** (`restartOk` is the history variable set at every launch decision). -/
+theorem C06_restart_only_with_cmd {cfg : Cfg} (wf : WFCfg' cfg) {g : G} (h : Reachable cfg g) :
+    g.restartOk = true :=
+  (invAll_reachable wf h).b.restartOk
+
+/-- A report other than TIMEDOUT never changes a restart counter and never
+launches with the restart script: the only call of `_execute_record(restart=True)`
+is in the TIMEDOUT branch, *after* the timed-out job was reported, guarded by
+the restart command, the budget and the cancel flag. -/
+theorem C06_restart_after_timeout (cfg : Cfg) (g : G) (i : Nat) (st : Option State)
+    (hne : st ≠ some .TIMEDOUT) :
+    (report cfg g i st).restarts = g.restarts ∧ (report cfg g i st).log = g.log := by
+  cases st with
+  | none => simp [report, terminal]
+  | some s => cases s <;> first | (exact absurd rfl hne) | simp [report, terminal, setStatus]
+
+/-- The TIMEDOUT branch, spelled out: restart (counter + 1, restart script)
+exactly when the step has a restart command, no cancel was requested and the
+budget allows it; otherwise the step leaves the tracking, its sub-tree is queued
+for the failure sweep and nothing is submitted. -/
+theorem canConsume_iff (cfg : Cfg) (g : G) (i : Nat) :
+    canConsumeRestart cfg g i = true ↔ (cfg.rlimit i = 0 ∨ g.restarts i < cfg.rlimit i) := by
+  unfold canConsumeRestart
+  rw [Bool.or_eq_true, beq_iff_eq, decide_eq_true_iff]
+
+theorem C06_timedout_decision {cfg : Cfg} (wf : WFCfg cfg) (g : G) (i : Nat) :
+    (cfg.hasRestart i = true → g.isCanceled = false →
+        (cfg.rlimit i = 0 ∨ g.restarts i < cfg.rlimit i) →
+      report cfg g i (some .TIMEDOUT) =
+        executeRecord cfg { setStatus { g with live := rem i g.live } i .TIMEDOUT with
+          restarts := upd g.restarts i (g.restarts i + 1) } i true) ∧
+    ((cfg.hasRestart i = false ∨ g.isCanceled = true ∨
+        (cfg.rlimit i ≠ 0 ∧ ¬ g.restarts i < cfg.rlimit i)) →
+      (report cfg g i (some .TIMEDOUT)).log = g.log ∧
+      i ∉ (report cfg g i (some .TIMEDOUT)).inProgress ∧
+      (report cfg g i (some .TIMEDOUT)).restarts = g.restarts ∧
+      (report cfg g i (some .TIMEDOUT)).status i = .TIMEDOUT ∧
+      (i ∈ (report cfg g i (some .TIMEDOUT)).failed ∨ i ∈ (report cfg g i (some .TIMEDOUT)).cleanup) ∧
+      ∀ x, x ∈ subtree cfg i → x ≠ i → x ∈ (report cfg g i (some .TIMEDOUT)).cleanup) := by
+  constructor
+  · intro h1 h2 h3
+    have hcan : canConsumeRestart cfg (setStatus { g with live := rem i g.live } i .TIMEDOUT) i = true := by
+      rw [canConsume_iff]; simpa [setStatus] using h3
+    simp only [report, terminal, ↓reduceIte]
+    rw [if_pos (by simp [h1, h2]), if_pos hcan]
+    rfl
+  · intro h
+    simp only [report, terminal, ↓reduceIte]
+    by_cases hg : (cfg.hasRestart i && !g.isCanceled) = true
+    · simp only [hg, ↓reduceIte]
+      have hcan : canConsumeRestart cfg (setStatus { g with live := rem i g.live } i .TIMEDOUT) i = false := by
+        simp only [Bool.and_eq_true, Bool.not_eq_eq_eq_not, Bool.not_true] at hg
+        rcases h with h | h | h
+        · rw [hg.1] at h; cases h
+        · rw [hg.2] at h; cases h
+        · cases hcc : canConsumeRestart cfg (setStatus { g with live := rem i g.live } i .TIMEDOUT) i with
+          | false => rfl
+          | true =>
+            exfalso
+            rw [canConsume_iff] at hcc
+            simp only [setStatus] at hcc
+            rcases hcc with h' | h'
+            · exact h.1 h'
+            · exact h.2 h' 
+      simp only [hcan, Bool.false_eq_true, ↓reduceIte]
+      refine ⟨rfl, by simp, rfl, by simp [setStatus], Or.inr ?_, ?_⟩
+      · simp [self_mem_subtree wf i]
+      · intro x hx _; simp [hx]
+    · simp only [hg, Bool.false_eq_true, ↓reduceIte]
+      refine ⟨rfl, by simp [setStatus], rfl, by simp [setStatus], Or.inl (by simp), ?_⟩
+      intro x hx hxi; simp [hx, hxi]
+
+/-! non-vacuity: in the demo history step 2 (limit 1) was restarted once -/
+example : 0 < demoCfg.rlimit 2 ∧ (run demoCfg demoOps).restarts 2 = 1 ∧
+    (run demoCfg demoOps).restartOk = true :=
+  ⟨by decide, demo_state.2.2.1, C06_restart_only_with_cmd demo_wf demo_reachable⟩
 
 end MaestroVerif.C06
